@@ -64,13 +64,19 @@ def minimise(mod, case, vclass, known=None, budget_s=90, max_runs=400):
     improved = True
     while improved and time.monotonic() - t0 < budget_s and runs < max_runs:
         improved = False
-        for cand in mod.shrink_candidates(cur):
-            if time.monotonic() - t0 > budget_s or runs >= max_runs:
-                break
-            cand['_index'] = case.get('_index')
-            cand['_seed'] = case.get('_seed')
-            if fails(cand):
-                cur = cand
-                improved = True
-                break
+        try:
+            for cand in mod.shrink_candidates(cur):
+                if time.monotonic() - t0 > budget_s or runs >= max_runs:
+                    break
+                cand['_index'] = case.get('_index')
+                cand['_seed'] = case.get('_seed')
+                if fails(cand):
+                    cur = cand
+                    improved = True
+                    break
+        except Exception:
+            # a defect in a candidate generator must never lose the violation: report what has been reached so far
+            import traceback, sys
+            traceback.print_exc(file=sys.stderr)
+            break
     return cur, runs
